@@ -10,5 +10,6 @@ func main() {
 		"c41":   c41,
 		"repro": repro,
 		"c28p":  c28p,
+		"c27x":  c27x,
 	})
 }
